@@ -335,9 +335,8 @@ func (x *c08Ctx) wellFormed(rs []c08Res, o c08Opts, v c08Variant, side string) b
 	k := x.kindName() + "/" + v.kind + "/" + side
 	seen := map[[2]int32]bool{}
 	for _, r := range rs {
-		// a distance is a chord angle in [0, 4] (4 + a few ulps is what updateMinDistance
-		// returns for exactly antipodal points; that rounding is not judged here)
-		if !(r.D >= 0 && r.D <= s1.StraightChordAngle+1e-9) {
+		// a distance is a valid chord angle: in [0, 4]
+		if !(r.D >= 0 && r.D <= s1.StraightChordAngle) {
 			x.fail("eq/invalid-distance/"+x.kindName()+"/"+v.kind, "result %v has a distance outside [0, 4] (%s path), %v", r, side, o)
 			return false
 		}
@@ -523,6 +522,24 @@ func (x *c08Ctx) interiors(rs []c08Res, o c08Opts, v c08Variant, side string) {
 	}
 	if anyIn && (len(rs) == 0 || rs[0].D != x.zero()) {
 		x.fail("eq/interior-distance-zero/"+k, "the target is inside an indexed polygon, IncludeInteriors(true), but the best result is %s, %v", c08Show(rs), o)
+	}
+	// every containing polygon is a candidate at distance zero: the first min(maxResults, n) results are at zero
+	n := 0
+	if o.inc {
+		for _, f := range x.c.Ins {
+			if f == 1 {
+				n++
+			}
+		}
+	}
+	if o.mr > 0 && n > o.mr {
+		n = o.mr
+	}
+	for i := 0; i < n; i++ {
+		if i >= len(rs) || rs[i].D != x.zero() {
+			x.fail("eq/interior-count/"+k, "the target is inside %d indexed polygons (exact model), so the best %d results are at distance zero; got %s, %v", n, n, c08Show(rs), o)
+			break
+		}
 	}
 }
 
